@@ -160,3 +160,20 @@ def ito_drift_correction(gfun, noise_type):
 
 def sqrt12():
     return math.sqrt(12.0)
+
+
+def solve(cell, sde, y0, ts, dt, entropy=None, bm=None, adjoint=False, **kw):
+    """Run the real sdeint (or sdeint_adjoint) for a matrix cell on a fresh same-entropy BrownianInterval."""
+    import torchsde
+    if bm is None:
+        t0 = float(ts[0])
+        t1 = float(ts[-1])
+        bm = torchsde.BrownianInterval(t0=t0, t1=t1, size=(y0.size(0), sde.m), dtype=y0.dtype, entropy=entropy,
+                                       levy_area_approximation=levy_for(cell["method"]))
+    options = dict(cell["options"]) if cell.get("options") else None
+    fn = torchsde.sdeint_adjoint if adjoint else torchsde.sdeint
+    return fn(sde, y0, ts, bm=bm, method=cell["method"], dt=dt, options=options, **kw)
+
+
+def cell_sde(cell, d=3, m=2, seed=0, **kw):
+    return NeuralSDE(d, m, cell["noise_type"], cell["sde_type"], seed=seed, **kw)
